@@ -680,7 +680,7 @@ class Fxp():
                 self.status['inaccuracy'] = True
 
             # force return raw value for better precision
-            val = val.val * 2**(self.n_frac - val.n_frac)
+            val = utils.scale_raw(val.val, self.n_frac - val.n_frac)
             raw = True
 
             # a negative shift gives non-integer raw values: they must reach the rounding step as floats
@@ -1112,7 +1112,7 @@ class Fxp():
         if isinstance(x, Fxp):
             raw_val = x.val
 
-            new_val_raw = raw_val * 2**(self.n_frac - x.n_frac)
+            new_val_raw = utils.scale_raw(raw_val, self.n_frac - x.n_frac)
             self.set_val(new_val_raw, raw=True, index=index)
         else:
             self.set_val(x, index=index)
@@ -1673,7 +1673,7 @@ class Fxp():
 
     def like(self, x):
         if isinstance(x, self.__class__):
-            new_raw_val = self.val * 2**(x.n_frac - self.n_frac)
+            new_raw_val = utils.scale_raw(self.val, x.n_frac - self.n_frac)
             return  x.deepcopy().set_val(new_raw_val, raw=True)
         else:
             raise ValueError('`x` should be a Fxp object!')
